@@ -203,6 +203,8 @@ func runC17(c *Ctx, r *Report, tier string) {
 			r.Check(strings.HasPrefix(t, "("+colExpr+" - call:unicode/utf8.RuneCountInString("), "COLUMN", c.fname(wh), "argument rows: padding", c.ipos(in), "description column − characters of the argument prefix", "padding is "+trunc(t, 140))
 		case t == "2":
 			// the leading indent of an argument row
+		case strings.HasPrefix(t, "(phi{") && strings.Contains(t, "len(Command.Name(idx(") && strings.Contains(t, "call:(*Command).sortedVisibleCommands(") && strings.Contains(t, " - len(Command.Name("):
+			// the command list column: a running maximum of the visible names' lengths minus this name's length
 		case strings.HasPrefix(t, "(call:maxCommandLength("), strings.HasPrefix(t, "(phi{len(Command.Name(idx(call:(*Command).sortedVisibleCommands("), strings.HasPrefix(t, "(phi{phi{len(Command.Name(idx("), strings.HasPrefix(t, "(phi{0 | phi{len(Command.Name(idx(call:(*Command).sortedVisibleCommands("):
 			// command list column, independent of the description column
 		default:
